@@ -1,5 +1,6 @@
 //! `verif <Cxx> [--tier quick|thorough] [--replay file] [--only substr]`
 //! Bounded exhaustive exploration of the real sta-rs code (see /verif/DESIGN.md).
+mod ggmx;
 mod mc;
 mod props;
 mod refmodel;
